@@ -80,6 +80,9 @@ def run(rep, prop, kinds, tier, seed, replay_prog=None):
             w = p[0].split()
             rep.distinct(("mv", w[0], kind_of(p), "nv%s" % (w[2] if w[0] == "lock" else w[1]) if w[0] != "handoff" else "intr%s" % w[3], res.result))
             viol = []
+            if res.result.startswith("result slow"):
+                rep.cov["mv_inconclusive_slow"] = rep.cov.get("mv_inconclusive_slow", 0) + 1      # still progressing after 300 s: the machine is too loaded to judge
+                continue
             if res.result.startswith("result hung"):
                 viol.append("nobody made progress for 3 s although threads were still inside their operations (%s)" % next((l for l in res.trace if l.startswith("stalled")), ""))
             if res.result.startswith("result crashed"):
